@@ -513,7 +513,8 @@ def global_cases(rng, n):
 
 def gen_cases(rng, tier):
     q = tier == 'quick'
-    cases = []
+    from gen import c14_enum
+    cases = c14_enum.enum_cases()        # enumerated on every run, before anything random
     cases += prefix_cases(rng, 150 if q else 800)
     cases += prefix_merge_cases(rng, 120 if q else 600)
     cases += aspath_cases(rng, 150 if q else 800)
